@@ -459,8 +459,7 @@ Definition merged_line_entry (frag : bytes) (e' : entry) : list entry :=
   | g0 :: g1 :: g2 :: g3 :: g4 :: gs =>
                             (* the torn record's own name; hash = torn hash digits ++ next start *)
       [ {| e_out := g3; e_start := c_atoi g0; e_end := c_atoi g1; e_mtime := c_strtoll g2;
-           e_hash := c_strtoull16 (concat (map (fun g => g ++ [9]) (removelast (g4 :: gs))) ++
-                                   last (g4 :: gs) [] ++
+           e_hash := c_strtoull16 (g4 ++ concat (map (fun g => 9 :: g) gs) ++
                                    s' ++ 9 :: n' ++ 9 :: m' ++ 9 :: o' ++ 9 :: h') |} ]
   | [] => []                (* unreachable *)
   end.
